@@ -136,6 +136,9 @@ func (s *Server) dial(
 	if err != nil {
 		return nil, err
 	}
+	if dest == nil {
+		return nil, endpointNotFoundError(domain)
+	}
 
 	if dest.Home {
 		if s.dialHome == nil {
